@@ -112,7 +112,7 @@ def eval_algebra(au: List[list], conc: Conc) -> Tuple[dict, List[dict]]:
   comparisons / predicates that raised (they have no table encoding)."""
   n = len(au)
   mk = lambda i: conc.path(au[i])     # a fresh KeyPath every time (no cached printed form)
-  names = ['add', 'addstr', 'sub', 'subadd', 'rel', 'reladd', 'paradd', 'lt', 'le', 'gt', 'ge', 'eq', 'ne', 'hasheq']
+  names = ['add', 'addstr', 'sub', 'substr', 'subadd', 'rel', 'relstr', 'reladd', 'paradd', 'lt', 'le', 'gt', 'ge', 'eq', 'ne', 'hasheq']
   t: Dict[str, Any] = {k: [[None] * n for _ in range(n)] for k in names}
   raised = []
   t['parent'] = [_res(lambda i=i: mk(i).parent, conc) for i in range(n)]
@@ -124,10 +124,12 @@ def eval_algebra(au: List[list], conc: Conc) -> Tuple[dict, List[dict]]:
       t['addstr'][i][j] = _res(lambda: mk(i) + str(mk(j)), conc)
       t['sub'][i][j] = _res(lambda: a - b, conc)
       t['subadd'][i][j] = _res(lambda: (a + b) - a, conc)
+      t['substr'][i][j] = _res(lambda: mk(i) - str(mk(j)), conc)
       t['paradd'][i][j] = _res(lambda: (a + b).parent, conc)
       try:
         t['rel'][i][j] = bool(a.is_relative_to(b))
         t['reladd'][i][j] = bool((a + b).is_relative_to(a))
+        t['relstr'][i][j] = bool(mk(i).is_relative_to(str(mk(j))))
         t['lt'][i][j] = bool(a < b)
         t['le'][i][j] = bool(a <= b)
         t['gt'][i][j] = bool(a > b)
@@ -137,7 +139,7 @@ def eval_algebra(au: List[list], conc: Conc) -> Tuple[dict, List[dict]]:
         t['hasheq'][i][j] = hash(a) == hash(b)
       except Exception as ex:  # pylint: disable=broad-except
         raised.append({'a': au[i], 'b': au[j], 'err': type(ex).__name__})
-        for k in ('rel', 'reladd', 'lt', 'le', 'gt', 'ge', 'eq', 'ne', 'hasheq'):
+        for k in ('rel', 'relstr', 'reladd', 'lt', 'le', 'gt', 'ge', 'eq', 'ne', 'hasheq'):
           if t[k][i][j] is None:
             t[k][i][j] = False
   return t, raised
@@ -272,7 +274,7 @@ def eval_value(v: dict, dom: bool, conc: Conc) -> dict:
 # KeyPathSet: S->C replay of behaviours of specs/KeyPathSetM.tla
 
 # pools of concrete keys for the key ids of the spec (distinct as dict keys; '0' vs 0 on purpose)
-KEY_POOL = ['a', 'b', 0, 1, -1, '0', 'x.y', '[0]', 'é', 10, '10', '-1', 'a[0].b', '\U0001F600', -10]
+KEY_POOL = ['a', 'b', 0, 1, -1, '0', 'x.y', '[0]', 'é', 10, '10', '-1', 'a[0].b', '\U0001F600', -10, 'ab', '01', 'a.b']
 DOLLAR_POOL = ['$']          # collides with the trie's terminal marker (known design collision)
 
 
